@@ -507,7 +507,12 @@ class Status:
         self.data.update(Status.defaults)
 
         for key in list(data.keys()):
-            self.data[key.strip().lower()] = data[key].strip()
+            # VV: error-description is free text (a traceback ends with a newline) which is escaped in the file,
+            #     keep it exactly as it was written. Everything else is a token.
+            if key.strip().lower() == 'error-description':
+                self.data[key.strip().lower()] = data[key]
+            else:
+                self.data[key.strip().lower()] = data[key].strip()
 
         self.data['stages'] = stages
 
